@@ -1343,3 +1343,184 @@ example : evalParagraph ⟨[['a'], ['a'], ['\n'], ['\n'], ['b'], ['\n']], 1, tru
 example : evalParagraph ⟨[['a'], ['a'], ['\n'], ['\n'], ['b'], ['\n']], 1, true, false, []⟩ true 2 true = .onto 4 := by decide
 
 end Vicut.Paragraph
+
+/-! # Paragraph objects `ip` and `ap` -/
+namespace Vicut.ParaObj
+open Vicut
+
+theorem runUp_spec (p : PL) (k : Bool) (i : Nat) :
+    p.runUp k i ≤ i ∧ ∀ j, p.runUp k i ≤ j → j < i → p.b j = k := by
+  induction i with
+  | zero => exact ⟨Nat.le_refl _, fun j _ h => absurd h (by omega)⟩
+  | succ i ih =>
+    simp only [PL.runUp]
+    split
+    · rename_i hk
+      refine ⟨by omega, ?_⟩
+      intro j h1 h2
+      by_cases hji : j = i
+      · rw [hji]; simpa using hk
+      · exact ih.2 j h1 (by omega)
+    · exact ⟨Nat.le_refl _, fun j h1 h2 => absurd h2 (by omega)⟩
+
+theorem runDown_spec (p : PL) (k : Bool) (f l : Nat) :
+    l ≤ p.runDown k f l ∧ (l ≤ p.last → p.runDown k f l ≤ p.last) ∧
+    ∀ j, l < j → j ≤ p.runDown k f l → p.b j = k := by
+  induction f generalizing l with
+  | zero => exact ⟨Nat.le_refl _, fun h => h, fun j h1 h2 => absurd h2 (by simp [PL.runDown]; omega)⟩
+  | succ f ih =>
+    simp only [PL.runDown]
+    split
+    · rename_i hc
+      simp only [Bool.and_eq_true, decide_eq_true_eq, beq_iff_eq] at hc
+      obtain ⟨a, b, c⟩ := ih (l + 1)
+      refine ⟨by omega, fun _ => b (by omega), ?_⟩
+      intro j h1 h2
+      by_cases hj : j = l + 1
+      · rw [hj]; exact hc.2
+      · exact c j (by omega) h2
+    · exact ⟨Nat.le_refl _, fun h => h, fun j h1 h2 => absurd h2 (by omega)⟩
+
+theorem extend_spec (p : PL) (l l' : Nat) (hl : l ≤ p.last) (h : p.extend l = some l') : l < l' ∧ l' ≤ p.last := by
+  unfold PL.extend at h
+  split at h
+  · exact absurd h (by simp)
+  · rename_i hne
+    simp only [beq_iff_eq] at hne
+    cases h
+    obtain ⟨a, b, _⟩ := runDown_spec p (p.b (l + 1)) (p.last - l) (l + 1)
+    exact ⟨by omega, b (by omega)⟩
+
+theorem moreRuns_spec (p : PL) (k l l' : Nat) (hl : l ≤ p.last) (h : p.moreRuns k l = some l') : l ≤ l' ∧ l' ≤ p.last := by
+  induction k generalizing l with
+  | zero => simp [PL.moreRuns] at h; subst h; exact ⟨Nat.le_refl _, hl⟩
+  | succ k ih =>
+    simp only [PL.moreRuns] at h
+    cases he : p.extend l with
+    | none => simp [he] at h
+    | some l1 =>
+      simp only [he] at h
+      obtain ⟨a, b⟩ := extend_spec p l l1 hl he
+      obtain ⟨c, d⟩ := ih l1 b h
+      exact ⟨by omega, d⟩
+
+theorem moreParas_spec (p : PL) (ob : Bool) (k l l' : Nat) (hl : l ≤ p.last) (h : p.moreParas ob k l = some l') :
+    l ≤ l' ∧ l' ≤ p.last := by
+  induction k generalizing l with
+  | zero => simp [PL.moreParas] at h; subst h; exact ⟨Nat.le_refl _, hl⟩
+  | succ k ih =>
+    simp only [PL.moreParas] at h
+    cases he : p.extend l with
+    | none => simp [he] at h
+    | some l1 =>
+      simp only [he] at h
+      obtain ⟨a, b⟩ := extend_spec p l l1 hl he
+      split at h
+      · split at h
+        · cases he2 : p.extend l1 with
+          | none => simp [he2] at h
+          | some l2 =>
+            simp only [he2] at h
+            obtain ⟨a2, b2⟩ := extend_spec p l1 l2 b he2
+            obtain ⟨c, d⟩ := ih l2 b2 h
+            exact ⟨by omega, d⟩
+        · obtain ⟨c, d⟩ := ih l1 b h
+          exact ⟨by omega, d⟩
+      · split at h
+        · cases he2 : p.extend l1 with
+          | none =>
+            simp only [he2, Option.getD_none] at h
+            obtain ⟨c, d⟩ := ih l1 b h
+            exact ⟨by omega, d⟩
+          | some l2 =>
+            simp only [he2, Option.getD_some] at h
+            obtain ⟨a2, b2⟩ := extend_spec p l1 l2 b he2
+            obtain ⟨c, d⟩ := ih l2 b2 h
+            exact ⟨by omega, d⟩
+        · obtain ⟨c, d⟩ := ih l1 b h
+          exact ⟨by omega, d⟩
+
+/-- **`ip` / `ap` (any count) are whole lines around the cursor line**, inside the buffer. -/
+theorem textObj_contains_cursor_line (p : PL) (cur count : Nat) (around : Bool) (a b : Nat)
+    (h : p.textObj cur count around = some (a, b)) : a ≤ min cur p.last ∧ min cur p.last ≤ b ∧ b ≤ p.last := by
+  unfold PL.textObj at h
+  have hc : min cur p.last ≤ p.last := Nat.min_le_right _ _
+  have ru := runUp_spec p (p.b (min cur p.last)) (min cur p.last)
+  have rd := runDown_spec p (p.b (min cur p.last)) (p.last - min cur p.last) (min cur p.last)
+  have hl : p.runDown (p.b (min cur p.last)) (p.last - min cur p.last) (min cur p.last) ≤ p.last := rd.2.1 hc
+  simp only at h
+  split at h
+  · -- ip
+    cases hm : p.moreRuns (count - 1) (p.runDown (p.b (min cur p.last)) (p.last - min cur p.last) (min cur p.last)) with
+    | none => simp [hm] at h
+    | some l =>
+      simp only [hm, Option.map_some, Option.some.injEq, Prod.mk.injEq] at h
+      obtain ⟨h1, h2⟩ := h
+      obtain ⟨c, d⟩ := moreRuns_spec p _ _ _ hl hm
+      subst h1; subst h2
+      exact ⟨ru.1, by omega, d⟩
+  · split at h
+    · cases he : p.extend (p.runDown (p.b (min cur p.last)) (p.last - min cur p.last) (min cur p.last)) with
+      | none => simp [he] at h
+      | some l1 =>
+        simp only [he] at h
+        obtain ⟨e1, e2⟩ := extend_spec p _ _ hl he
+        cases hm : p.moreParas true (count - 1) l1 with
+        | none => simp [hm] at h
+        | some l =>
+          simp only [hm, Option.map_some, Option.some.injEq, Prod.mk.injEq] at h
+          obtain ⟨h1, h2⟩ := h
+          obtain ⟨c, d⟩ := moreParas_spec p true _ _ _ e2 hm
+          subst h1; subst h2
+          exact ⟨ru.1, by omega, d⟩
+    · cases he : p.extend (p.runDown (p.b (min cur p.last)) (p.last - min cur p.last) (min cur p.last)) with
+      | some l1 =>
+        simp only [he] at h
+        obtain ⟨e1, e2⟩ := extend_spec p _ _ hl he
+        cases hm : p.moreParas false (count - 1) l1 with
+        | none => simp [hm] at h
+        | some l =>
+          simp only [hm, Option.map_some, Option.some.injEq, Prod.mk.injEq] at h
+          obtain ⟨h1, h2⟩ := h
+          obtain ⟨c, d⟩ := moreParas_spec p false _ _ _ e2 hm
+          subst h1; subst h2
+          exact ⟨ru.1, by omega, d⟩
+      | none =>
+        simp only [he] at h
+        cases hm : p.moreParas false (count - 1) (p.runDown (p.b (min cur p.last)) (p.last - min cur p.last) (min cur p.last)) with
+        | none => simp [hm] at h
+        | some l =>
+          simp only [hm, Option.map_some, Option.some.injEq, Prod.mk.injEq] at h
+          obtain ⟨h1, h2⟩ := h
+          obtain ⟨c, d⟩ := moreParas_spec p false _ _ _ hl hm
+          have := (runUp_spec p true (p.runUp (p.b (min cur p.last)) (min cur p.last))).1
+          subst h1; subst h2
+          exact ⟨by omega, by omega, d⟩
+
+/-- **`ip` is exactly one run**: every line of it is blank iff the cursor line is. -/
+theorem ip_is_one_run (p : PL) (cur : Nat) (a b : Nat) (h : p.textObj cur 1 false = some (a, b)) :
+    ∀ j, a ≤ j → j ≤ b → p.b j = p.b (min cur p.last) := by
+  unfold PL.textObj at h
+  simp only [Bool.not_false, ↓reduceIte, Nat.sub_self, PL.moreRuns, Option.map_some, Option.some.injEq, Prod.mk.injEq] at h
+  obtain ⟨h1, h2⟩ := h
+  have ru := runUp_spec p (p.b (min cur p.last)) (min cur p.last)
+  have rd := runDown_spec p (p.b (min cur p.last)) (p.last - min cur p.last) (min cur p.last)
+  intro j ha hb
+  by_cases hlt : j < min cur p.last
+  · exact ru.2 j (by omega) hlt
+  · by_cases heq : j = min cur p.last
+    · rw [heq]
+    · exact rd.2.2 j (by omega) (by omega)
+
+/-- lines "aa","bb","","cc","dd","","ee": `ip` on line 3 is lines 3–4, `ap` adds the blank line 5, `ap` on
+the last paragraph takes the blank line before it, `2ap` from the top takes lines 0–5, `3ap` the whole
+buffer, `4ap` fails. -/
+example : (PL.mk [false, false, true, false, false, true, false]).textObj 3 1 false = some (3, 4) := by decide
+example : (PL.mk [false, false, true, false, false, true, false]).textObj 3 1 true = some (3, 5) := by decide
+example : (PL.mk [false, false, true, false, false, true, false]).textObj 6 1 true = some (5, 6) := by decide
+example : (PL.mk [false, false, true, false, false, true, false]).textObj 0 2 true = some (0, 5) := by decide
+example : (PL.mk [false, false, true, false, false, true, false]).textObj 0 3 true = some (0, 6) := by decide
+example : (PL.mk [false, false, true, false, false, true, false]).textObj 0 4 true = none := by decide
+example : (PL.mk [false, false, true, false, false, true, false]).textObj 2 1 true = some (2, 4) := by decide
+
+end Vicut.ParaObj
